@@ -65,11 +65,26 @@ def run_block(I, stmts, env, fx):
                 fx['assign'][tgt + s0.get('opcode')] = v if v is not None else canon(s0['inner'][1])
         elif k == 'CallExpr' and call_name(s0) == 'add_mask_bits':
             fx['mask'] += int_value(call_args(s0)[2]) or 0
+        elif k == 'CXXMemberCallExpr' and canon(member_call_object(s0)) == 'data' and call_name(s0) == 'push_back':
+            rhs = call_args(s0)[0]
+            v = bv_const(I.eval(rhs, env))
+            fx['append'].append(v & 0xFF if v is not None else canon(rhs))
         elif k == 'CXXMemberCallExpr' and canon(member_call_object(s0)) == 'data' and call_name(s0) == 'append':
             a = call_args(s0)
             n = int_value(a[1]) if len(a) == 2 and int_value(a[1]) is not None and int_value(a[0]) is None else (int_value(a[0]) if len(a) == 2 else None)
             fx['append'].append(('block', n))
-        elif k in ('DeclStmt', 'NullStmt'):
+        elif k == 'DeclStmt':
+            # a local bound to a decidable value (`const char ch = in[0];`) is known from here on
+            for vd in kids(s0):
+                if vd.get('kind') == 'VarDecl' and kids(vd):
+                    try:
+                        v = I.eval(kids(vd)[-1], env)
+                    except Exception:
+                        v = None
+                    if v is not None and bv_const(v) is not None:
+                        info = width_of_type(dtype(vd))
+                        env[vd['id']] = I.cast(v, dtype(vd)) if info else v
+        elif k == 'NullStmt':
             pass
         else:
             fx['unknown'].append(k)
@@ -84,6 +99,7 @@ def run(ctx):
     ctx.rule('C09-R2', 'hex form: two uppercase hex digits of an unsigned byte; the parser\'s nybble branch maps each of them to its value, high nybble first; ? toggles are consumed only outside strings/comments', 20)
     ctx.rule('C09-R3', 'parser totality: every advance of the cursor is dominated by facts that the bytes stepped over are non-NUL; every turn of the main loop advances or returns; the file state is entered only with ALLOW_FILES', 20)
     ctx.rule('C09-R4', 'width table: #/##/###/#### append 1/2/4/8 bytes, %/%% 4/8; every append is paired with the same number of mask bytes; byte swap iff big_endian != host with the swap of that width', 12)
+    ctx.rule('C09-R6', 'round trip by evaluation (E-TABLE): parse_data_string(format_data_string(x, mask)) == (x, mask) for all single bytes, pairs and triples over class representatives (all 65536 pairs in the thorough tier), every mask of up to 3 positions, with and without SKIP_STRINGS', 1)
     ctx.rule('C09-R5', 'hex dump: a line is collapsed only under the flag, strictly after the first and strictly before the last line, and all-zero in both buffers; iovec cursors advance with `while` (empty iovecs); hex/ascii columns use 2 hex digits and the 0x20..0x7E predicate', 6)
     u = ctx.unit(repo_unit('Strings.cc'))
     enums = enum_env(u)
@@ -208,6 +224,64 @@ def run(ctx):
     quotes = [int_value(x['inner'][2]) for x in stmts_of(q_branch) if strip(x).get('kind') == 'CXXOperatorCallExpr' and call_name(strip(x)) == 'operator+='] if q_branch.get('kind') == 'CompoundStmt' else []
     ctx.check(quotes == [34, 34], R, 'quoted|delimiters', q_branch, 'text is wrapped in double quotes', 'quoted form delimiters are %s' % quotes)
 
+    # ---- R6 round trip by evaluation (E-TABLE): the text the formatter produces for a byte string is
+    # parsed back to that byte string (and, with a mask, to that mask) - all single bytes, all pairs
+    # over class representatives (all 65536 pairs in the thorough tier), masks over every position
+    R = 'C09-R6'
+    Pfull = next((f_ for f_ in u.func('phosg::parse_data_string') if len(params_of(f_)) == 3 and body_of(f_) is not None and 'char' not in (qtype(params_of(f_)[0]) or '').split('basic_string')[0].split('string')[0]), None)
+    Fmask = F
+    r6 = {'ok': 0, 'bad': None, 'und': None}
+
+    def round_trip(bs, mask=None, flags=0):
+        if r6['und']:
+            return
+        try:
+            r = PE.call_with(Fmask, [Lit(bytes(bs)), len(bs), Lit(bytes(mask)) if mask is not None else None, flags])
+            txt = bytes(r.b)
+            mout = Str() if mask is not None else None
+            back = PE.call_with(Pfull, [Str(txt), mout, 0])
+        except Fault as e:
+            r6['bad'] = r6['bad'] or (bytes(bs), mask, 'evaluation faults: %s' % e)
+            return
+        except Thrown as e:
+            r6['bad'] = r6['bad'] or (bytes(bs), mask, 'the parser throws on the formatter\'s own text (%s)' % e)
+            return
+        except Undecided as e:
+            r6['und'] = str(e)
+            return
+        got = bytes(back.b) if isinstance(back, Str) else None
+        if got != bytes(bs):
+            r6['bad'] = r6['bad'] or (bytes(bs), mask, 'it is rendered as %r, which parses back to %r' % (txt.decode('latin1'), got))
+        elif mask is not None and [1 if m_ else 0 for m_ in bytes(mout.b)] != [1 if m_ else 0 for m_ in mask]:
+            r6['bad'] = r6['bad'] or (bytes(bs), mask, 'with mask %s it is rendered as %r, which parses back with mask %s' % (list(mask), txt.decode('latin1'), list(bytes(mout.b))))
+        else:
+            r6['ok'] += 1
+    if Pfull is None:
+        ctx.undecided(R, 'round-trip', P, 'parse_data_string(const std::string&, std::string*, uint64_t) not found')
+    else:
+        from peval import Thrown
+        reps = [0x00, 0x01, 0x09, 0x0A, 0x0D, 0x1F, 0x20, 0x21, 0x22, 0x27, 0x2F, 0x30, 0x39, 0x3C, 0x3F, 0x41, 0x46, 0x5C, 0x61, 0x66, 0x7E, 0x7F, 0x80, 0xFF]
+        for fl_ in (0, skip_flag):
+            for b in range(256):
+                round_trip([b], None, fl_)
+            pairs = [(a_, b_) for a_ in (range(256) if ctx.tier == 'thorough' and fl_ == 0 else reps) for b_ in (range(256) if ctx.tier == 'thorough' and fl_ == 0 else reps)]
+            for a_, b_ in pairs:
+                round_trip([a_, b_], None, fl_)
+            for a_ in reps[::3]:
+                for b_ in reps[1::3]:
+                    for c_ in reps[2::3]:
+                        round_trip([a_, b_, c_], None, fl_)
+            for bs in ([0x41], [0x00], [0x41, 0x42], [0x00, 0x41], [0x41, 0x42, 0x43], [0x00, 0x01, 0x02], [0x41, 0x00, 0x42], [0x22, 0x41, 0x5C]):
+                for m_ in range(1 << len(bs)):
+                    round_trip(bs, [0xFF if (m_ >> i_) & 1 else 0 for i_ in range(len(bs))], fl_)
+        if r6['und']:
+            ctx.undecided(R, 'round-trip', Pfull, 'formatter / parser could not be evaluated (%s)' % r6['und'])
+        elif r6['bad']:
+            ctx.bad(R, 'round-trip', Pfull, 'data string %r: %s' % (r6['bad'][0], r6['bad'][2]))
+        else:
+            ctx.ok(R, 'round-trip', Pfull, 'parse_data_string(format_data_string(x)) == x (and the mask) for %d byte strings: all single bytes, pairs and triples over class representatives, every mask of up to 3 positions, with and without SKIP_STRINGS' % r6['ok'])
+    r6_decides = Pfull is not None and not r6['und'] and not r6['bad']
+
     # ---- R2 hex form
     R = 'C09-R2'
     for b in range(256):
@@ -242,7 +316,11 @@ def run(ctx):
             tog = [nf(x) for x in walk(if_parts(nyb)[1]) if x.get('kind') == 'BinaryOperator' and x.get('opcode') == '=' and canon(x['inner'][0]) == 'reading_high_nybble']
             hv = next((v for v in walk(pbody) if v.get('kind') == 'VarDecl' and v.get('name') == 'reading_high_nybble'), None)
             okn = canon(c_) == 'reading_high_nybble' and sh in (['(chr = (chr << 4))'], ['(chr <<= 4)']) and len(em) == 1 and tog == ['(reading_high_nybble = !reading_high_nybble)'] and hv is not None and int_value(kids(hv)[-1]) == 1
-    ctx.check(okn, R, 'hex|nybble-pairing', nyb or P, 'first digit is the high nybble (shifted by 4), the byte is emitted on the second', 'nybble pairing is not high-then-low with a 4-bit shift')
+    if not okn and r6_decides:
+        # another shape of the same state machine: C09-R6 has evaluated every two-digit pair through it
+        ctx.undecided(R, 'hex|nybble-pairing', nyb or P, 'the nybble pairing is not written as `if (high) chr <<= 4; else data += chr` - its behaviour is decided by evaluation (C09-R6)')
+    else:
+        ctx.check(okn, R, 'hex|nybble-pairing', nyb or P, 'first digit is the high nybble (shifted by 4), the byte is emitted on the second', 'nybble pairing is not high-then-low with a 4-bit shift')
     # '?' consumed only outside the string/comment/filename states
     qb = next(((c, t) for c, t in branches if any(int_value(relation(n_, True)[2]) == ord('?') for n_, _ in atoms([Fact(c, True, None)]) if relation(n_, True) and relation(n_, True)[1] == '==')), None)
     ctx.require(qb is not None, 'parse_data_string: `?` branch not found')
@@ -453,6 +531,10 @@ def run(ctx):
             return (n, 0) if n is not None else None
         if k == 'CXXOperatorCallExpr' and call_name(s0) == 'operator+=' and canon(s0['inner'][1]) == 'data':
             return None if 'load_file' in canon(s0) else (1, 0)
+        if k == 'CXXMemberCallExpr' and canon(member_call_object(s0)) == 'data' and call_name(s0) == 'push_back':
+            return (1, 0)
+        if k == 'CXXMemberCallExpr' and canon(member_call_object(s0)) == 'data' and call_name(s0) not in ('size', 'empty', 'length', 'data', 'c_str', 'reserve'):
+            return None
         if k == 'CallExpr' and call_name(s0) == 'add_mask_bits':
             n = int_value(call_args(s0)[2])
             return (0, n) if n is not None else None
@@ -519,9 +601,40 @@ def run(ctx):
         r = relation(n0, pol)
         if r:
             rels.add((nf(r[0]), r[1], nf(r[2])))
+        mc = None
         if n0.get('kind') == 'CallExpr' and call_name(n0) == 'memcmp' and not pol:
-            a = call_args(n0)
-            if int_value(a[2]) == 16 and string_lit(a[1]) == b'\x00' * 16:
+            mc = n0
+        elif r and r[1] == '==' and pol:
+            for p_, q_ in ((r[0], r[2]), (r[2], r[0])):
+                if strip(p_).get('kind') == 'CallExpr' and call_name(strip(p_)) == 'memcmp' and int_value(q_) == 0:
+                    mc = strip(p_)
+        if mc is not None:
+            a = call_args(mc)
+            n_cmp = int_value(a[2])
+            if n_cmp is None:
+                sz_ = next((y for y in walk(a[2]) if y.get('kind') == 'UnaryExprOrTypeTraitExpr' and y.get('name') == 'sizeof' and kids(y)), None)
+                if sz_ is not None:
+                    n_cmp = sizeof_type(dtype(strip(kids(sz_)[0])) or qtype(strip(kids(sz_)[0])))
+            zeros = None
+            if string_lit(a[1]) is not None:
+                zeros = len(string_lit(a[1])) if set(string_lit(a[1])) <= {0} else None
+            else:
+                zd = ref_decl(a[1])
+                zv = next((v for v in walk(dbody) if v.get('kind') == 'VarDecl' and zd is not None and v['id'] == zd.get('id')), None)
+                if zv is None and zd is not None:
+                    zv = next((d_ for d_ in DECLS.get(zd.get('id'), ()) if d_.get('kind') == 'VarDecl' and d_.get('inner')), None)
+                if zv is not None and 'const' in (qtype(zv) or '') and kids(zv):
+                    tot = sizeof_type(qtype(zv))
+                    init = strip(kids(zv)[-1])
+                    elems = [c_ for c_ in kids(init) if c_.get('kind') not in ('ImplicitValueInitExpr',)] if init.get('kind') == 'InitListExpr' else None
+                    arr_filler = init.get('array_filler') if init.get('kind') == 'InitListExpr' else None
+                    els_ = []
+                    if init.get('kind') == 'InitListExpr':
+                        src_ = arr_filler if arr_filler else kids(init)
+                        els_ = [c_ for c_ in src_ if c_.get('kind') != 'ImplicitValueInitExpr']
+                        if all(int_value(c_) == 0 for c_ in els_) and tot:
+                            zeros = tot
+            if n_cmp == 16 and zeros is not None and zeros >= 16:
                 zero_tests += 1
 
     def has(a, ops, b):
